@@ -153,6 +153,12 @@ func init() {
 	}
 }
 
+func init() {
+	// the same scripted client, answered by the driver with the RFC reading for frames on streams the server itself has
+	// just reset (reset-in-flight): an oracle operation
+	verifExecs["h2smrif"] = func(t *testing.T, a []string) string { return verifExecs["h2sm"](t, a) }
+}
+
 func unhexVerif(s string) []byte {
 	if s == "-" {
 		return nil
